@@ -292,6 +292,17 @@ def run_case(case):
             else:
                 expect_raises("unknown-remove-error", ComponentNotFoundError, world.remove_cell_component, name)
                 labels.add("remove-unknown")
+        elif op["op"] == "use":
+            # the grid's other services in between: a neighbourhood spanning the whole world (and a small one), both handed back as
+            # lists which the caller sorts / reverses / empties
+            big = max(w, h, d, 1)
+            for r_, incl_, ret_ in ((big, True, tuple), (big, True, int), (1, False, tuple)):
+                for fn_ in (world.get_moore_neighbours, world.get_neumann_neighbours):
+                    res_ = fn_((0, 0, 0), r_, incl_, ret_)
+                    if isinstance(res_, list):
+                        res_.reverse()
+                        del res_[:1]
+            labels.add("other-services-used")
         elif op["op"] == "remove_unknown":
             expect_raises("unknown-remove-error", ComponentNotFoundError, world.remove_cell_component, "never-added")
             labels.add("remove-unknown")
@@ -330,8 +341,9 @@ def strategy(tier):
     name = st.integers(0, 3)
     op = wone_of(st.fixed_dictionaries({"op": st.just("add"), "name": name, "src": src, "again": st.booleans()}),
                    st.fixed_dictionaries({"op": st.just("add"), "name": name, "src": src, "again": st.booleans()}),
+                   st.fixed_dictionaries({"op": st.just("add"), "name": name, "src": src, "again": st.booleans()}),
                    st.fixed_dictionaries({"op": st.just("remove"), "name": name}),
-                   st.fixed_dictionaries({"op": st.just("remove_unknown")}))
+                   st.fixed_dictionaries({"op": st.just("remove_unknown")}), st.just({"op": "use"}))
     from vf.fixtures import near_pow2
     small_shape = st.sampled_from([{"kind": "line", "w": 3, "h": 0, "d": 0}, {"kind": "grid", "w": 3, "h": 2, "d": 0},
                                    {"kind": "discrete", "w": 2, "h": 0, "d": 3}])
